@@ -53,3 +53,5 @@ def run(rep, tier):
     # generated class bodies (shared with C05 d)
     from .. import routes
     routes.class_tables(rep, only_rules=('C14-field-tables',))
+    from .. import controls
+    controls.walker_controls(rep)
